@@ -14,6 +14,7 @@ HOSTILE = ['x = 1', 'a == b # c', '# # #', '(0) (k-1) (t-1)', 'MaxTime = 3', 'th
            "it's \"quoted\"", 't = 5', 'k', '[1,2,3]*3', 'LAG_x = x(k-1)', '= = =']
 HOSTILE_NOMARK = [h for h in HOSTILE if 'exogenous' not in h.lower()]
 MALFORMED = ['just some words', 'a = b = c', 'LL = {v}(k-1) + 1', 'LL = 2*{v}(k-1)', 'LL = {v}(t-1) - {v}',
+             'LL = 0.5 *{v} (k -1 )', 'LL = {v} (k -1 ) + 1', 'LL = {v} (k -1 )*{v} (k -1 )', 'LL = 1 + {v}(t-1)',
              'x ==', 'no equals sign here 3 + 4']
 
 
